@@ -284,7 +284,11 @@ def run(repo, rep):
                         ok = mask & 0xFFF == 0xFFF
                         detail = f"{norm(v)}: mask {mask:#x} leaves multiplier bits {0xFFF & ~mask:#x} unchecked; with any of them set the simplified triple (shift 16) differs from the reference derivation"
     rep.check(ok, "C09-d", site, "8-bit add/sub with equal input scales uses the simplified triple only if (OFM multiplier & 0xFFF) == 0", detail)
-    rep.floor("C09-d", 3)
+    from .shared import scale_direction_lint
+
+    if scale_direction_lint(repo, rep, "C09-d") < 12:
+        raise AnalysisError("scale quotients not found (naming changed?)")
+    rep.floor("C09-d", 15)
 
     # ---------------------------------------------------------------- e: key of cached scale records
     wc = repo.mod("weight_compressor")
@@ -324,3 +328,7 @@ def run(repo, rep):
     rep.check(len(hit) == 1 and norm(hit[0].test) in ("tens_cached.scale_compression_config == scc", "scc == tens_cached.scale_compression_config"), "C09-e", f"{WCF}:encode_weight_and_scale_tensor",
               "cached scale records are reused only when the whole scale key is equal", norm(hit[0].test) if hit else "")
     rep.floor("C09-e", 6)
+    rep.clause("C09-f", "a scale register write is elided only when both emitted words (multiplier payload and shift parameter) equal the last write [rule shared with C06-e]")
+    from . import c06
+
+    rep.run_borrowed(c06, {'C06-e': 'C09-f'}, repo)
